@@ -1158,6 +1158,61 @@ def is_d2(c):
         return 0
 
 
+def daemon_dispatch_phase(ctx):
+    """'in munged, whatever type its header and body claim (each type code 0..255)': the daemon itself (job.c dispatches on the type
+    the UNPACKED message carries), fed every outer type code and, inside a type-1 header message, every inner type code (the
+    header-in-a-header rewrites the type/retry/length words).  Each exchange ends in a reply or a close; the daemon keeps serving."""
+    import rig, hostile, socket
+    exe, err = rig.build_daemon(ctx, san="address")
+    if exe is None:
+        ctx.violation("munged does not build from /repo: " + err[-300:], {"obligation": "build (dispatch phase)"}, found_input=False)
+        return
+    d = rig.Daemon(ctx, exe, tag="c14disp", nthreads=2)
+    if not d.start():
+        ctx.violation("munged does not start (dispatch phase)", {"obligation": "start"}, found_input=False)
+        return
+    body = rig.enc_req_body(data=b"dispatch")
+    items = [("outer/type%d" % t, rig.hdr(t, 0, len(body)) + body) for t in range(256)]
+    for inner in range(256):
+        for ilen in (0, 11):
+            b = rig.hdr(inner, 0, ilen)
+            items.append(("nested/inner%d" % inner, rig.hdr(1, 0, len(b)) + b))
+    bad = None
+    n = 0
+    for cls, raw in items:
+        try:
+            s = socket.socket(socket.AF_UNIX, socket.SOCK_STREAM)
+            s.settimeout(5)
+            s.connect(d.sock)
+            s.sendall(raw)
+            try:
+                s.recv(65536)
+            except socket.timeout:
+                bad = (cls, raw, "neither a reply nor a close within 5 s")
+            s.close()
+        except OSError as e:
+            bad = (cls, raw, "connection failed: %s" % e)
+        n += 1
+        ctx.count(("dispatch", cls))
+        if bad or not d.alive():
+            if not bad:
+                bad = (cls, raw, "munged died")
+            break
+    if not bad:
+        c = rig.canary(d.sock)
+        if c:
+            bad = (items[-1][0], items[-1][1], "afterwards: " + c)
+    alive = d.alive()
+    rc, rep = d.stop()
+    kinds, frames = hostile.summarize_report(rep)
+    ctx.cov.setdefault("input_distribution", {})["daemon-dispatch"] = n
+    if bad or kinds or not alive:
+        cls, raw, why = bad if bad else (items[-1][0], items[-1][1], "sanitizer report")
+        ctx.violation("munged, message class %s: %s%s" % (cls, why if alive else "munged died (exit %s)" % rc,
+                                                          (" [%s at %s]" % (kinds[0], " <- ".join("%s %s:%d" % fr for fr in frames[:3]))) if kinds else ""),
+                      {"raw_hex": raw.hex(), "class": cls, "sanitizer": kinds})
+
+
 def run(ctx):
     """the property's own check, then the component check of the socket I/O loops (fd.c) that every request and reply of
     this property goes through: Properties_FD.v + correspondence FdModel ~ /repo's fd.c (tools/props/fd_common.py)"""
@@ -1168,5 +1223,7 @@ def run(ctx):
         ctx.violation("proof obligation no longer checks: %s" % getattr(ctx, "broken_obligation", "?"),
                       {"obligation": getattr(ctx, "broken_obligation", "?"), "log": ctx.proof_log[-3000:]},
                       found_input=False)
+    if not getattr(ctx, "replay", None):
+        daemon_dispatch_phase(ctx)
     from props import fd_common
     fd_common.fd_phase(ctx)
